@@ -499,12 +499,16 @@ MANIFEST_TEXT = {
         level_note="Trusted: Coq kernel, extraction, drivers, harness; model hand-written, tied by correspondence (shape-exact) on sampled histories.",
         technique="Coq proof (refinement + invariant by induction over histories) on a hand-written Gallina model + differential correspondence check"),
     "C08": dict(
-        level_text="Proof: the model's State is set membership; Set/Clear/Flip have exactly the set-theoretic effect on every index; Trim, "
-                   "EnsureCapacity, Data, Copy/Clone leave the set and the count unchanged, Data is canonical, Reset empties -- Coq theorems for "
-                   "all states and all indexes >= 0. Range forms, Count = cardinality, the six searches, Load and Equal are decided per run by "
-                   "the correspondence check plus a reference set evaluated on the implementation's observations after every operation "
-                   "(theorems for these are stated in DESIGN.md as not yet proved).",
-        level_note="Trusted: Coq kernel, extraction, drivers, harness; model hand-written, tied by correspondence on sampled histories.",
+        level_text="Proof: for every history of Set/Clear/Flip (single and range forms, ranges in either order, inside one word, across any "
+                   "number of words, beyond the capacity), Load, Copy/Clone, Trim, EnsureCapacity, Data and Reset with non-negative indexes, "
+                   "State(i) equals membership in a mathematical set subjected to the same operations (refinement theorem over srun), the "
+                   "words stay 64-bit and Count equals the cardinality; First/Last/Next/PreviousSet and Next/PreviousClear return the extreme "
+                   "matching index or the documented -1/sentinel for every start; Data/Trim/EnsureCapacity/Clone never change the set, "
+                   "Load(Data()) reproduces set and count, Data is canonical, Equal is true exactly when the members coincide -- Coq theorems "
+                   "for all states, indexes and histories. Each run also checks correspondence of the model with the real BitSet after every "
+                   "operation and a reference set on the implementation's own observations.",
+        level_note="Trusted: Coq kernel, extraction, drivers, harness; model hand-written (per-bit inner loops written as word masks, "
+                   "countSetBits as population count), tied by correspondence on sampled histories.",
         technique="Coq proof (refinement to a membership function) on a hand-written Gallina model + differential correspondence check"),
     "C18": dict(
         level_text="Proof: Contains = inclusion of a non-empty rectangle, Intersects = common point, Intersect = common points, Union = least "
